@@ -237,6 +237,40 @@ fn main() {
             for f in &o.fails { println!("MONITOR-FAIL {} {}", f.0, f.1); }
             std::process::exit(if o.fails.is_empty() { 0 } else { 1 });
         }
-        _ => { eprintln!("usage: h_atomic gen <n> <trace> <summary> | replay <acts>"); std::process::exit(2); }
+        Some("stress") => {
+            // search for a literal C06 violation with real threads: the DiskCache discipline (lock{prepare_add}; write unlocked;
+            // lock{commit}  /  lock{get_file}; read unlocked) on two keys with multi-megabyte single-byte-filled values
+            let millis: u64 = a[2].parse().unwrap();
+            let dir = tempfile::tempdir().unwrap();
+            let cache = std::sync::Arc::new(std::sync::Mutex::new(LruDiskCache::new(dir.path().join("c"), 1 << 32).unwrap()));
+            let stop = std::sync::Arc::new(std::sync::atomic::AtomicBool::new(false));
+            let bad: std::sync::Arc<std::sync::Mutex<Vec<String>>> = Default::default();
+            let reads = std::sync::Arc::new(std::sync::atomic::AtomicU64::new(0));
+            let len_of = |fill: u8| 1_000_000usize + (fill as usize) * 4096;
+            let mut hs = vec![];
+            for w in 0..3u8 { let (cache, stop) = (cache.clone(), stop.clone());
+                hs.push(std::thread::spawn(move || { let mut fill = w * 40 + 1;
+                    while !stop.load(std::sync::atomic::Ordering::Relaxed) {
+                        let key = keyname((fill % 2) as u64); let n = len_of(fill);
+                        let entry = { cache.lock().unwrap().prepare_add(key, n as u64) };
+                        if let Ok(mut e) = entry { let chunk = vec![fill; 65536]; let mut left = n;
+                            while left > 0 { let k = left.min(chunk.len()); e.as_file_mut().write_all(&chunk[..k]).unwrap(); left -= k; }
+                            let _ = cache.lock().unwrap().commit(e); }
+                        fill = fill.wrapping_add(1); if fill == 0 { fill = 1; } } })); }
+            for _ in 0..4 { let (cache, stop, bad, reads) = (cache.clone(), stop.clone(), bad.clone(), reads.clone());
+                hs.push(std::thread::spawn(move || { let mut i = 0u64;
+                    while !stop.load(std::sync::atomic::Ordering::Relaxed) { i += 1;
+                        let f = { cache.lock().unwrap().get_file(keyname(i % 2)) };
+                        if let Ok(mut f) = f { let mut b = vec![]; f.read_to_end(&mut b).unwrap(); reads.fetch_add(1, std::sync::atomic::Ordering::Relaxed);
+                            let ok = !b.is_empty() && b.iter().all(|x| *x == b[0]) && b.len() == 1_000_000usize + (b[0] as usize) * 4096;
+                            if !ok { let first = b.first().cloned().unwrap_or(0); let cut = b.iter().position(|x| *x != first).unwrap_or(b.len());
+                                bad.lock().unwrap().push(format!("lookup of key {} read {} bytes: {} x 0x{:02x} then {} other bytes (a complete value with that fill has {} bytes)", i % 2, b.len(), cut, first, b.len() - cut, 1_000_000usize + (first as usize) * 4096)); } } } })); }
+            std::thread::sleep(std::time::Duration::from_millis(millis)); stop.store(true, std::sync::atomic::Ordering::Relaxed);
+            for h in hs { let _ = h.join(); }
+            let bad = bad.lock().unwrap();
+            println!("{{\"reads\":{},\"violations\":{},\"first\":{}}}", reads.load(std::sync::atomic::Ordering::Relaxed), bad.len(), jstr(bad.first().map(|s| s.as_str()).unwrap_or("")));
+            std::process::exit(if bad.is_empty() { 0 } else { 1 });
+        }
+        _ => { eprintln!("usage: h_atomic gen <n> <trace> <summary> | replay <acts> | stress <millis>"); std::process::exit(2); }
     }
 }
